@@ -4,6 +4,7 @@ import (
 	"net/http/httptest"
 	"os"
 	"path/filepath"
+	"strings"
 	"sync"
 	"testing"
 	"time"
@@ -15,7 +16,8 @@ import (
 
 // TestRace: side condition of the C09 schedule exploration. The controlled scheduler switches threads at
 // synchronisation operations only, which is sufficient provided the code between them is data-race free; this pass runs
-// the same thread bodies (an accepted request, then replays of it overlapping a reload) as free goroutines under -race.
+// the same thread bodies (an accepted request, then replays of it overlapping a reload or - two rounds in five - a
+// management mutation through the Admin handler, applied or refused by its reload) as free goroutines under -race.
 // bin/check reports a race the detector prints as a violation (key data-race).
 func TestRace(t *testing.T) {
 	if os.Getenv("VERIF_RACE") == "" {
@@ -33,12 +35,29 @@ func TestRace(t *testing.T) {
 			// the very first requests of the route race with each other and with the reload (lazily built state)
 			a.Ingress.ServeHTTP(httptest.NewRecorder(), signed("n1", ts, true))
 		}
+		text := dsl(tol)
 		if it%2 == 1 {
-			os.WriteFile(a.ConfigPath, []byte(dsl(2*tol)), 0o644)
+			text = dsl(2 * tol)
 		}
+		if it%5 == 4 {
+			// a pending operator edit that needs a restart: the management mutation below is refused by its reload
+			text = strings.Replace(text, "127.0.0.1:18080", "127.0.0.1:18081", 1)
+		}
+		os.WriteFile(a.ConfigPath, []byte(text), 0o644)
 		var wg sync.WaitGroup
 		wg.Add(4)
-		go func() { defer wg.Done(); a.Reload("race") }()
+		go func() {
+			defer wg.Done()
+			if it%5 < 3 {
+				a.Reload("race")
+				return
+			}
+			// the reload placement "management mutation": endpoint upsert through the Admin handler (file rewrite + reload)
+			rq := httptest.NewRequest("PUT", "/applications/billing/endpoints/inv", strings.NewReader(`{"route":"/h"}`))
+			rq.Header.Set("X-Hookaido-Audit-Reason", "verif")
+			rq.Header.Set("Content-Type", "application/json")
+			a.Admin.ServeHTTP(httptest.NewRecorder(), rq)
+		}()
 		for i := 0; i < 3; i++ {
 			nonce := "n1"
 			if i == 2 {
